@@ -153,6 +153,7 @@ func init() {
 			{Name: "parallel", Race: true, Run: codecParallel("bed")},
 			{Name: "histories", Run: codecHistories("bed")},
 			{Name: "readerzoo", TShards: 4, Run: zooUnit("bed")},
+			{Name: "exactsizes", QShards: 2, TShards: 4, Run: exactSizeUnit("bed")},
 			firstCallUnit(firstCodec("bed")),
 		},
 	})
